@@ -147,7 +147,7 @@ def sendI (s : Slave) (i : Nat) (asdu : List Nat) (qref : Option (Nat × Nat)) :
 def sendAsduInternal (s : Slave) (i : Nat) (asdu : List Nat) : Slave × Bool :=
   let c := s.conn i
   if c.state = 1 then
-    if !isFull c.maxSent c.win then (sendI s i asdu none, true)
+    if !isFull c.maxSent c.win && (s.grp (s.gidx i)).highQ.count == 0 then (sendI s i asdu none, true)
     else
       let g := s.grp (s.gidx i)
       let (hq, ok) := g.highQ.enqueue asdu
@@ -200,6 +200,32 @@ def appHandler (s : Slave) (i : Nat) (asdu : List Nat) : Slave :=
     let (s, ok) := sendAsduInternal s i asdu
     emit s (.reply i ok)) s
 
+/-- the I-format branch of `handleMessage` (cs104_slave.c:2616-2700) -/
+def handleI (s : Slave) (i : Nat) (buf : List Nat) : Slave × Bool :=
+  let n := buf.length
+  if n < 7 then (s, false)
+  else
+    let c := s.conn i
+    if c.state != 1 then (s, false)
+    else
+      let c := if !c.t2Triggered then { c with t2Triggered := true, lastConf := some s.now } else c
+      let s := s.setConn i c
+      let ns := (buf.getD 3 0 * 0x100 + (buf.getD 2 0 &&& 0xfe)) / 2
+      let nr := (buf.getD 5 0 * 0x100 + (buf.getD 4 0 &&& 0xfe)) / 2
+      if ns != c.vr then (s, false)
+      else
+        let (s, ok) := checkSeqConn s i nr
+        if !ok then (s, false)
+        else
+          let c := s.conn i
+          let s := s.setConn i { c with vr := (c.vr + 1) % 32768, unconf := c.unconf + 1 }
+          if (s.conn i).state = 1 then
+            if n - 6 < s.p.asduHdr then (s, false)
+            else
+              let s := appHandler s i (buf.drop 6)
+              (s.setConn i { s.conn i with nextT3 := s.now + s.p.t3 * 1000 }, true)
+          else (s, false)
+
 /-- `handleMessage`: false = close the connection -/
 def handleMessage (s : Slave) (i : Nat) (buf : List Nat) : Slave × Bool :=
   let n := buf.length
@@ -209,27 +235,7 @@ def handleMessage (s : Slave) (i : Nat) (buf : List Nat) : Slave × Bool :=
   else
     let b2 := buf.getD 2 0
     let t3 (s : Slave) : Slave := s.setConn i { s.conn i with nextT3 := s.now + s.p.t3 * 1000 }
-    if b2 &&& 1 == 0 then
-      if n < 7 then (s, false)
-      else
-        let c := s.conn i
-        if c.state != 1 then (s, false)
-        else
-          let c := if !c.t2Triggered then { c with t2Triggered := true, lastConf := some s.now } else c
-          let s := s.setConn i c
-          let ns := (buf.getD 3 0 * 0x100 + (b2 &&& 0xfe)) / 2
-          let nr := (buf.getD 5 0 * 0x100 + (buf.getD 4 0 &&& 0xfe)) / 2
-          if ns != c.vr then (s, false)
-          else
-            let (s, ok) := checkSeqConn s i nr
-            if !ok then (s, false)
-            else
-              let c := s.conn i
-              let s := s.setConn i { c with vr := (c.vr + 1) % 32768, unconf := c.unconf + 1 }
-              if (s.conn i).state = 1 then
-                if n - 6 < s.p.asduHdr then (s, false)
-                else (t3 (appHandler s i (buf.drop 6)), true)
-              else (s, false)
+    if b2 &&& 1 == 0 then handleI s i buf
     else if b2 &&& 0x43 == 0x43 then
       let (s, ok) := write s i TESTFR_CON
       if ok then (t3 s, true) else (s, false)
@@ -268,34 +274,36 @@ def handleMessage (s : Slave) (i : Nat) (buf : List Nat) : Slave × Bool :=
         else (t3 s, true)
     else (s, true)
 
-/-- `receiveMessage` (after the repair: a missing length octet is waited for, as in the
-client): (-1, _) error, (0, _) incomplete, (n, msg) complete message of n octets -/
+/-- `receiveMessage` on the reassembly state alone (receive buffer, socket): after the repair
+a missing length octet is waited for, as in the client.  Result: (-1, _) error, (0, _)
+incomplete, (n, msg) complete message of n octets. -/
+def recvRest (buf : List Nat) (sk : Sock) : List Nat × Sock × Int × List Nat :=
+  let length := buf.getD 1 0
+  let remaining : Int := (length : Int) - (buf.length : Int) + 2
+  let (sk, r, got) := sk.read remaining.toNat
+  if r = remaining then ([], sk, (length : Int) + 2, buf ++ got)
+  else if r = -1 then ([], sk, -1, [])
+  else (buf ++ got, sk, 0, [])
+
+def recvLen (buf : List Nat) (sk : Sock) : List Nat × Sock × Int × List Nat :=
+  let (sk, r, got) := sk.read 1
+  if r < 0 then ([], sk, -1, [])
+  else if r = 0 then (buf, sk, 0, [])
+  else recvRest (buf ++ got) sk
+
+def recvStep (buf : List Nat) (sk : Sock) : List Nat × Sock × Int × List Nat :=
+  if buf.length = 0 then
+    let (sk, r, got) := sk.read 1
+    if r < 1 then (buf, sk, r, [])
+    else if got.getD 0 0 != 0x68 then (buf, sk, -1, [])
+    else recvLen got sk
+  else if buf.length = 1 then recvLen buf sk
+  else recvRest buf sk
+
 def receiveMessage (s : Slave) (i : Nat) : Slave × Int × List Nat :=
   let c := s.conn i
-  if c.recvBuf.length = 0 then
-    let (sk, r, got) := c.sock.read 1
-    let c := { c with sock := sk }
-    if r < 1 then (s.setConn i c, r, [])
-    else if got.getD 0 0 != 0x68 then (s.setConn i c, -1, [])
-    else recvLen s i c got
-  else if c.recvBuf.length = 1 then recvLen s i c c.recvBuf
-  else recvRest s i c c.recvBuf
-where
-  recvRest (s : Slave) (i : Nat) (c : Conn) (buf : List Nat) : Slave × Int × List Nat :=
-    let length := buf.getD 1 0
-    let remaining : Int := (length : Int) - (buf.length : Int) + 2
-    -- a length octet smaller than what is already buffered gives remaining ≤ 0
-    let (sk, r, got) := if remaining > 0 then c.sock.read remaining.toNat else (c.sock, (0 : Int), [])
-    let c := { c with sock := sk }
-    if r = remaining then (s.setConn i { c with recvBuf := [] }, (length : Int) + 2, buf ++ got)
-    else if r = -1 then (s.setConn i { c with recvBuf := [] }, -1, [])
-    else (s.setConn i { c with recvBuf := buf ++ got }, 0, [])
-  recvLen (s : Slave) (i : Nat) (c : Conn) (buf : List Nat) : Slave × Int × List Nat :=
-    let (sk, r, got) := c.sock.read 1
-    let c := { c with sock := sk }
-    if r < 0 then (s.setConn i { c with recvBuf := [] }, -1, [])
-    else if r = 0 then (s.setConn i { c with recvBuf := buf }, 0, [])
-    else recvRest s i c (buf ++ got)
+  let (buf, sk, r, msg) := recvStep c.recvBuf c.sock
+  (s.setConn i { c with recvBuf := buf, sock := sk }, r, msg)
 
 /-- the `w` test after each received message -/
 def ackIfW (s : Slave) (i : Nat) : Slave :=
@@ -346,46 +354,52 @@ def sendWaitingASDUs (s : Slave) (i : Nat) : Slave :=
       | some (id, off, data) => sendI s i data (some (off, id))
       | none => s
 
-/-- `handleTimeouts`: false = close -/
-def handleTimeouts (s : Slave) (i : Nat) : Slave × Bool :=
+/-- `handleTimeouts`, first part: T3 supervision — after t3 seconds without receiving anything
+(and no TESTFR con outstanding) send TESTFR act and arm the T1 timer for its confirmation -/
+def phaseT3 (s : Slave) (i : Nat) : Slave :=
   let now := s.now
   let c := s.conn i
-  -- checkT3Timeout
   let (c, t3hit) :=
     if c.waitingTestFR then (c, false)
     else
       let c := if c.nextT3 > now + s.p.t3 * 1000 then { c with nextT3 := now + s.p.t3 * 1000 } else c
       (c, decide (now > c.nextT3))
   let s := s.setConn i c
-  let s :=
-    if t3hit then
-      let (s, ok) := write s i TESTFR_ACT
-      let s := if !ok then s.setConn i { s.conn i with isRunning := false } else s
-      s.setConn i { s.conn i with waitingTestFR := true, nextTestFR := now + s.p.t1 * 1000 }
-    else s
+  if t3hit then
+    let (s, ok) := write s i TESTFR_ACT
+    let s := if !ok then s.setConn i { s.conn i with isRunning := false } else s
+    s.setConn i { s.conn i with waitingTestFR := true, nextTestFR := now + s.p.t1 * 1000 }
+  else s
+
+/-- second part: the outstanding TESTFR con; false = T1 expired -/
+def phaseTestFR (s : Slave) (i : Nat) : Slave × Bool :=
+  let now := s.now
   let c := s.conn i
-  -- TESTFR con timeout
-  let (c, ok1) :=
-    if c.waitingTestFR then
-      let c := if c.nextTestFR > now + s.p.t1 * 1000 then { c with nextTestFR := now + s.p.t1 * 1000 } else c
-      (c, !(decide (now > c.nextTestFR)))
-    else (c, true)
-  let s := s.setConn i c
-  -- t2
-  let s :=
-    if c.unconf > 0 then
-      let c := match c.lastConf with
-        | some l => if l > now then { c with lastConf := some now } else c
-        | none => c
-      let s := s.setConn i c
-      match c.lastConf with
-      | some l =>
-        if now > l && now - l ≥ s.p.t2 * 1000 then
-          sendS (s.setConn i { c with lastConf := some now, unconf := 0, t2Triggered := false }) i
-        else s
-      | none => s
-    else s
-  -- t1 on the oldest unacknowledged I-frame
+  if c.waitingTestFR then
+    let c := if c.nextTestFR > now + s.p.t1 * 1000 then { c with nextTestFR := now + s.p.t1 * 1000 } else c
+    (s.setConn i c, !(decide (now > c.nextTestFR)))
+  else (s, true)
+
+/-- third part: T2 — acknowledge received I-frames t2 seconds after the first unacknowledged one -/
+def phaseT2 (s : Slave) (i : Nat) : Slave :=
+  let now := s.now
+  let c := s.conn i
+  if c.unconf > 0 then
+    let c := match c.lastConf with
+      | some l => if l > now then { c with lastConf := some now } else c
+      | none => c
+    let s := s.setConn i c
+    match c.lastConf with
+    | some l =>
+      if now > l && now - l ≥ s.p.t2 * 1000 then
+        sendS (s.setConn i { c with lastConf := some now, unconf := 0, t2Triggered := false }) i
+      else s
+    | none => s
+  else s
+
+/-- fourth part: T1 on the oldest unacknowledged I-frame; `ok1` is the TESTFR verdict -/
+def phaseT1 (s : Slave) (i : Nat) (ok1 : Bool) : Slave × Bool :=
+  let now := s.now
   let c := s.conn i
   match c.win with
   | [] => (s, ok1)
@@ -393,6 +407,13 @@ def handleTimeouts (s : Slave) (i : Nat) : Slave × Bool :=
     let e := if e.sentTime > now then { e with sentTime := now } else e
     let s := s.setConn i { c with win := e :: rest }
     if now > e.sentTime && now - e.sentTime ≥ s.p.t1 * 1000 then (s, false) else (s, ok1)
+
+/-- `handleTimeouts` (cs104_slave.c:2987-3090): false = close -/
+def handleTimeouts (s : Slave) (i : Nat) : Slave × Bool :=
+  let s := phaseT3 s i
+  let (s, ok1) := phaseTestFR s i
+  let s := phaseT2 s i
+  phaseT1 s i ok1
 
 /-- `MasterConnection_executePeriodicTasks` -/
 def periodic (s : Slave) (i : Nat) : Slave :=
